@@ -306,10 +306,13 @@ func ZZHarnessCtrlHistory() {
 			}
 			lastHighestH, lastHighestSigners, haveHighest = hh, ns, true
 		}
-		// container invariant: sorted descending, no duplicates
+		// a height is never held twice (a second instance for a height would be the height "run again"); the order
+		// inside the container is an implementation detail and not asserted
 		_, all := zzHeightsOf(r.c)
-		for i := 1; i < len(all); i++ {
-			zzAssert(all[i-1] > all[i], "instance-container-sorted-descending")
+		for i := range all {
+			for j := 0; j < i; j++ {
+				zzAssert(all[i] != all[j], "no-height-held-twice")
+			}
 		}
 	}
 }
